@@ -123,4 +123,64 @@ def readStartingWithUser (ctxO stored : List Tuple) (typ r : String) (users : Li
   let s := storeReadStartingWithUser stored typ r users ids
   if sorted then dedupAdjObj (mergeByObj (c.length + s.length + 1) c s) else c ++ s
 
+/-! ### the weighted-graph engine's per-request indexes (internal/check/request.go)
+
+`buildContextualTupleMaps` files every contextual tuple under `(user, relation, objectType)` sorted by
+object and under `(object, relation, userType)` sorted by user; `insertSortedTuple` finds the first
+position whose key is `>=` the new key (`sort.Search` on the sorted slice), skips the tuple if the key at
+that position is equal, and inserts it there otherwise. -/
+
+def insertSortedBy (key : Tuple → String) (t : Tuple) : List Tuple → List Tuple
+  | [] => [t]
+  | x :: xs =>
+    if key x < key t then x :: insertSortedBy key t xs
+    else if key x = key t then x :: xs            -- duplicate: skipped
+    else t :: x :: xs
+
+/-- user type as the index spells it: `type` or `type#relation` -/
+def indexUserType (u : String) : String :=
+  if isUserset u then userType u ++ "#" ++ userRel u else userType u
+
+/-- `ctxTuplesByObjectID[(object, relation, userType)]` -/
+def ctxByObject (ctx : List Tuple) (o r ut : String) : List Tuple :=
+  (ctx.filter (fun t => t.obj = o && t.rel = r && indexUserType t.user = ut)).foldl
+    (fun acc t => insertSortedBy (·.user) t acc) []
+
+/-- `ctxTuplesByUserID[(user, relation, objectType)]` -/
+def ctxByUser (ctx : List Tuple) (u r ot : String) : List Tuple :=
+  (ctx.filter (fun t => t.user = u && t.rel = r && typeOf t.obj = ot)).foldl
+    (fun acc t => insertSortedBy (·.obj) t acc) []
+
+/-! ### the wrapper stack of `NewRequestStorageWrapperWithCache`
+
+bounded reader → iterator cache (`CachedDatastore`) → shared iterators → `CombinedTupleReader`.  The
+contextual tuples are merged ABOVE the caches: a cached iterator is keyed by the read filter and holds
+stored tuples only.  `K` is the filter (= cache key by C24), `rd` the datastore read. -/
+
+abbrev IterCache (K : Type) := List (K × List Tuple)
+
+def cacheGet {K : Type} [DecidableEq K] (c : IterCache K) (k : K) : Option (List Tuple) :=
+  (c.find? (fun p => p.1 = k)).map (·.2)
+
+/-- a read through the cached datastore: hit → cached value, miss → datastore read, stored in the cache -/
+def cachedRead {K : Type} [DecidableEq K] (rd : K → List Tuple) (c : IterCache K) (k : K) : List Tuple × IterCache K :=
+  match cacheGet c k with
+  | some v => (v, c)
+  | none => (rd k, c ++ [(k, rd k)])
+
+/-- one read of a request carrying the contextual tuples `ctx` (already filtered for this read by `sel`) -/
+def requestRead {K : Type} [DecidableEq K] (rd : K → List Tuple) (sel : List Tuple → K → List Tuple)
+    (ctx : List Tuple) (c : IterCache K) (k : K) : List Tuple × IterCache K :=
+  let (v, c') := cachedRead rd c k
+  (sel ctx k ++ v, c')
+
+/-- a history of reads, each belonging to a request with its own contextual tuples -/
+def runReads {K : Type} [DecidableEq K] (rd : K → List Tuple) (sel : List Tuple → K → List Tuple) :
+    IterCache K → List (List Tuple × K) → List (List Tuple) × IterCache K
+  | c, [] => ([], c)
+  | c, (ctx, k) :: rest =>
+    let (v, c') := requestRead rd sel ctx c k
+    let (vs, c'') := runReads rd sel c' rest
+    (v :: vs, c'')
+
 end OpenFGAVerif.Model.CombinedReader
